@@ -28,6 +28,7 @@ type RenderContext struct {
 	currentBlock       *BlockNode // Current block being rendered (for parent() function)
 	inParentCall       bool       // Flag to indicate if we're currently rendering a parent() call
 	sandboxed          bool       // Flag indicating if this context is sandboxed
+	rootTemplate       string     // Name of the template this render was started for; relative names resolve against it
 	lastLoadedTemplate *Template  // The template that created this context (for resolving relative paths)
 }
 
@@ -113,6 +114,7 @@ func NewRenderContext(env *Environment, context map[string]interface{}, engine *
 	ctx.parent = nil
 	ctx.inParentCall = false
 	ctx.sandboxed = false
+	ctx.rootTemplate = ""
 
 	// Copy the context values directly
 	if context != nil {
@@ -331,6 +333,9 @@ func (ctx *RenderContext) Clone() *RenderContext {
 
 	// Inherit sandbox state
 	newCtx.sandboxed = ctx.sandboxed
+
+	// A child context belongs to the same top-level render
+	newCtx.rootTemplate = ctx.rootTemplate
 
 	// Copy the lastLoadedTemplate reference (crucial for relative path resolution)
 	newCtx.lastLoadedTemplate = ctx.lastLoadedTemplate
